@@ -118,24 +118,15 @@ func (ex *Exec) walk(root types.Type, path []PathElem) (lo, hi int, idxs []*Term
 	t = root
 	comps := ex.L.rootComps(root)
 	lo, hi = 0, len(comps)
-	rootIsBacking := false
-	if _, ok := root.Underlying().(*types.Slice); ok {
-		if _, isStruct := ex.L.structOf(root); !isStruct {
-			rootIsBacking = true
-		}
-	}
+	rootIsBacking := isBackingRoot(root)
 	for i, pe := range path {
 		if pe.IsIndex {
 			idxs = append(idxs, pe.Index)
+			_ = i
+			_ = rootIsBacking
 			switch u := t.Underlying().(type) {
 			case *types.Array:
 				t = u.Elem()
-			case *types.Slice:
-				if i == 0 && rootIsBacking {
-					t = u.Elem()
-				} else {
-					panic("walk: index into slice value inside object")
-				}
 			default:
 				panic("walk: index into " + t.String())
 			}
